@@ -1,4 +1,5 @@
 import Chess.Lemmas.Reach
+import Chess.Lemmas.SearchF
 
 /-!
 # C08 — depth-limited and unlimited searches end cleanly whatever the table holds
@@ -52,6 +53,16 @@ theorem killer_and_history_in_range :
     (∀ d h : Nat, d ≤ Gen.maxDepth → h ≤ 10000 → h + d ^ 3 < 65536) :=
   ⟨killer_index_ok, history_no_overflow⟩
 
+
+/-! ### The faithful model (`driverF`) -/
+open Chess.Search.F in
+/-- **C08.5** Depth bounds after any history of searches any of which may have been stopped. -/
+theorem faithful_never_deeper_than_the_limit (o : Ops G M) (reqs : List (Req G)) (r : Req G) :
+    ∀ info ∈ (driverF o r.runs r.g (tableAfterF o {} reqs) r.off r.md).infos,
+      1 ≤ info.depth ∧ info.depth ≤ limitOf r.md ∧ info.depth ≤ maxDepth ∧
+      ∀ N, r.md = some N → 1 ≤ N → info.depth ≤ N :=
+  sessionF_depths o reqs r
+
 end Chess.Props.C08
 
 #print axioms Chess.Props.C08.never_deeper_than_the_limit
@@ -59,3 +70,4 @@ end Chess.Props.C08
 #print axioms Chess.Props.C08.stops_by_itself_at_the_limit
 #print axioms Chess.Props.C08.fuel_never_runs_out
 #print axioms Chess.Props.C08.killer_and_history_in_range
+#print axioms Chess.Props.C08.faithful_never_deeper_than_the_limit
